@@ -202,7 +202,9 @@ func genSSOWorld(t *rapid.T, o worldOpts) world.Spec {
 	for i := 0; i < n; i++ {
 		sp := stdSP(i)
 		if o.entityIDChars && rapid.Bool().Draw(t, "oddentity") {
-			sp.EntityID = fmt.Sprintf(rapid.SampledFrom([]string{"https://sp%d.example/md?x=1&y=2", "urn:example:sp%d", "https://sp%d.example/metadata/", "https://SP%d.example/metadata"}).Draw(t, "entityform"), i)
+			sp.EntityID = fmt.Sprintf(rapid.SampledFrom([]string{"https://sp%d.example/md?x=1&y=2", "urn:example:sp%d", "https://sp%d.example/metadata/", "https://SP%d.example/metadata",
+				// an entity ID is a string, compared as one: letter case of scheme and host, escapes and dot segments are part of it
+				"https://Portal.SP%d.Example.COM/saml/metadata", "HTTPS://sp%d.example/metadata", "https://sp%d.example/a/../metadata", "https://sp%d.example/%%7Esaml/metadata", "https://sp%d.example:443/metadata"}).Draw(t, "entityform"), i)
 		}
 		sp.ACS = genACSList(t, i, o.minACS, o.maxACS, o.bindings, o.oddLocations)
 		sp.WantAssertionsSigned = rapid.SampledFrom([]string{"", "", "", "true", "false", "0", "1"}).Draw(t, "wantassertionssigned")
